@@ -115,6 +115,45 @@ def enclosing_fn(lines, idx):
     return None
 
 
+
+CLOSURE_RE = re.compile(r"(?:^|[(,={;]|=>|\breturn|\bmove)\s*\|([^|]*)\|")
+
+
+def uncontracted_closures(lines):
+    """(0-based line, enclosing fn) of every closure literal on a repo-derived line (/*@L..*/) that carries no
+    requires/ensures, outside external_body functions. Verus knows nothing about the result of such a closure, so
+    every obligation of the enclosing function is undecidable (unsupported construct), not a violation."""
+    hits = []
+    for i, raw in enumerate(lines):
+        if '/*@L' not in raw:
+            continue
+        code = re.sub(r'/\*.*?\*/', '', raw)
+        code = re.sub(r'//.*$', '', code)
+        code = re.sub(r'"(?:[^"\\]|\\.)*"', '""', code)
+        code = re.sub(r"'(?:[^'\\]|\\.)'", "' '", code)
+        for m in CLOSURE_RE.finditer(code):
+            params = m.group(1)
+            if not re.match(r"^[\w\s:&,'<>()\[\]*]*$", params):
+                continue
+            if re.search(r'\b(forall|exists|choose)\s*$', code[:m.start() + 1]):
+                continue
+            window = code[m.end():] + ' ' + ' '.join(re.sub(r'/\*.*?\*/', '', l) for l in lines[i + 1:i + 4])
+            head = window.split('{', 1)[0]
+            if re.search(r'\b(requires|ensures)\b', head):
+                continue
+            # enclosing function and its attributes
+            fn, ext = None, False
+            for k in range(i, -1, -1):
+                mm = re.search(r'\bfn\s+(\w+)', re.sub(r'/\*.*?\*/', '', lines[k]))
+                if mm and not lines[k].lstrip().startswith('//'):
+                    fn = mm.group(1)
+                    ext = any('external_body' in lines[j] or 'verifier::external' in lines[j] for j in range(max(0, k - 4), k))
+                    break
+            if fn and not ext:
+                hits.append((i, fn))
+    return hits
+
+
 def name_obligations(res, report, assembled_path):
     """attach to every diagnostic: kind, function, origin (repo line or vc clause), obligation name"""
     lines = open(assembled_path, encoding='utf-8').read().split('\n')
@@ -151,4 +190,15 @@ def name_obligations(res, report, assembled_path):
         else:
             entry['obligation'] = '?/%s' % d['message']
         named.append(entry)
+    # a closure without a contract in a function under contract: its obligations cannot be decided
+    bare = uncontracted_closures(lines)
+    if bare:
+        fns = {fn: i for i, fn in bare}
+        for e in named:
+            if e['class'] == 'obligation' and e.get('function') in fns:
+                i = fns[e['function']]
+                org = linemap[i] if 0 <= i < len(linemap) else None
+                where = '%s:%d' % (os.path.basename(org[1]) if org and org[1] else '?', org[2] if org else i + 1)
+                e['class'] = 'undecided'
+                e['obligation'] = 'unsupported construct: closure without a contract in %s (@ %s); not decided: %s' % (e['function'], where, e['obligation'])
     return named
